@@ -26,6 +26,9 @@ uint32_t vp_fill_seed = 1;
 int vp_opt_tx_hex = 1;
 int vp_opt_tx_cap = 2000;
 int vp_opt_sleep = 1;
+int vp_opt_tx_cost = 0;        /* ms of monotonic time a transmit takes (blocking raw-socket write, driver queue) */
+int vp_opt_hello_cost = 0;     /* ms the send_hello callback of the tick takes */
+int vp_opt_clock_tick = 0;     /* ms the clock moves on every read (the repository's unit-test port does this with 1 ms) */
 int vp_fail_rc = -1;            /* what a failing int-returning getter returns: the core's convention is 0 = success */
 int vp_silent = 0;
 void (*vp_send_hook)(vp_iface *ifc, const uint8_t *frame, size_t len) = NULL;
@@ -262,8 +265,8 @@ void *lltd_port_memset(void *ptr, int value, size_t num) { return memset(ptr, va
 void *lltd_port_memcpy(void *d, const void *s, size_t n) { return memcpy(d, s, n); }
 int lltd_port_memcmp(const void *a, const void *b, size_t n) { return memcmp(a, b, n); }
 
-uint64_t lltd_port_monotonic_seconds(void) { return vp_now_ms / 1000; }
-uint64_t lltd_port_monotonic_milliseconds(void) { return vp_now_ms; }
+uint64_t lltd_port_monotonic_seconds(void) { vp_now_ms += (uint64_t)vp_opt_clock_tick; return vp_now_ms / 1000; }
+uint64_t lltd_port_monotonic_milliseconds(void) { vp_now_ms += (uint64_t)vp_opt_clock_tick; return vp_now_ms; }
 
 void lltd_port_sleep_ms(uint32_t ms) {
     vp_in.sleeps++;
@@ -299,6 +302,7 @@ int lltd_port_send_frame(void *ctx, const void *frame, size_t len) {
     __msan_check_mem_is_initialized(frame, len);
 #endif
     vp_in.sends++;
+    vp_now_ms += (uint64_t)vp_opt_tx_cost;
     if (vp_send_hook) {
         vp_send_hook(ifc, (const uint8_t *)frame, len);
         return 0;
